@@ -199,6 +199,7 @@ type encWorld struct {
 	injected    int
 	faultsOn    atomic.Bool
 	keyFile     string
+	stackBuf    []byte
 }
 
 func parseEncFaults(s string) (map[string]byte, bool) {
@@ -220,8 +221,23 @@ func parseEncFaults(s string) (map[string]byte, bool) {
 }
 
 func (w *encWorld) quiesce() bool {
+	// The background compaction has no hook: it is over when no goroutine has makePackedMetaBlob on its
+	// stack any more (a goroutine that was spawned but has not run yet shows its entry function too).
+	// Counting goroutines against a baseline is not reliable here: a straggler of an earlier case that
+	// ends meanwhile would hide the compaction.
 	deadline := time.Now().Add(20 * time.Second)
-	for i := 0; runtime.NumGoroutine() > w.base; i++ {
+	if w.stackBuf == nil {
+		w.stackBuf = make([]byte, 1<<20)
+	}
+	for i := 0; ; i++ {
+		n := runtime.Stack(w.stackBuf, true)
+		for n == len(w.stackBuf) && n < 64<<20 {
+			w.stackBuf = make([]byte, 2*len(w.stackBuf))
+			n = runtime.Stack(w.stackBuf, true)
+		}
+		if !bytes.Contains(w.stackBuf[:n], []byte("makePackedMetaBlob")) {
+			return true
+		}
 		if time.Now().After(deadline) {
 			return false
 		}
@@ -231,7 +247,6 @@ func (w *encWorld) quiesce() bool {
 			time.Sleep(50 * time.Microsecond)
 		}
 	}
-	return true
 }
 
 // start creates an encrypt storage over the two wrapped stores with an EMPTY meta index: all the
